@@ -42,14 +42,31 @@ EXPLANATION = ("theorems quantify over all line lists; the correspondence compar
 
 NS = "ns"
 
-# the fixed dependency set (written into every scratch namespace); max serialized bit length of each for the extent bound
-DEPS = {
-    "ns/Near.1.0.dsdl": "uint8 v\n@sealed\n",
-    "ns/dep/Small.1.0.dsdl": "uint16 a\nbool b\n@sealed\n",
-    "ns/dep/Uni.2.3.dsdl": "@union\nuint8 a\nfloat32 b\n@sealed\n",
-    "ns/dep/Delim.1.0.dsdl": "uint8[<=4] d\n@extent 64 * 8\n",
-    "ns/dep/sub/Deep.0.1.dsdl": "ns.dep.Small.1.0 s\nns.Near.1.0[<=2] n\n@sealed\n",
-}
+# the dependency set written into every scratch namespace: fixed names, versions, kinds and sizes (max serialized bit
+# lengths are needed for the extent bound), but field names, constant values and comments depend on an "edition" number,
+# so that two reads in one process see same-looking but differently defined composites (history: stale caches keyed by
+# the approximate equality of types would serve the old definition)
+def deps(ed):
+    e = str(ed)
+    return {
+        "ns/Near.1.0.dsdl": "# Near edition %s\nuint8 v%s  # v of %s\nuint8 ED = %d\n@sealed\n" % (e, e, e, ed % 256),
+        "ns/dep/Small.1.0.dsdl": "# Small edition %s\nuint16 a%s\nbool b # b of %s\nuint16 ED = %d\n@sealed\n" % (e, e, e, ed),
+        "ns/dep/Uni.2.3.dsdl": "# Uni edition %s\n@union\nuint8 a%s\nfloat32 b%s  # b of %s\n@sealed\n" % (e, e, e, e),
+        "ns/dep/Delim.1.0.dsdl": "# Delim edition %s\nuint8[<=4] d%s\nuint8 ED = %d # %s\n@extent 64 * 8\n" % (e, e, ed % 256, e),
+        "ns/dep/sub/Deep.0.1.dsdl": "# Deep edition %s\nns.dep.Small.1.0 s%s\nns.Near.1.0[<=2] n%s # n of %s\n@sealed\n" % (e, e, e, e),
+    }
+
+
+DEPS = deps(0)
+
+
+def editions(case):
+    """(edition of the preliminary read, edition of the read that is observed) - derived from the case's seed"""
+    ed = case["seed"] % 997
+    prev = (case["seed"] // 997) % 997
+    return (prev if prev != ed else (prev + 1) % 997), ed
+
+
 # spelling, full name, major, minor, max bits, dependency number (only used as the payload of PRead)
 REFS = [
     ("Near.1.0", "ns.Near", 1, 0, 8, 1),
@@ -502,6 +519,16 @@ def targeted():
                 L(cst("uint8", 8, "TIMEOUT_SEC", [["30", "o"]], 30, [])),
                 L(cst("uint16", 16, "TIMEOUT_MSEC", [["TIMEOUT_SEC", "o"], ["*", "o"], ["1000", "o"]], 30000, ["i"])),
                 L(arr), L(chk), L(sealed)])
+    # seeded C03-r3-1: arrays (and a plain field) of a composite that an earlier read of the same process saw in another edition
+    def ref(spelling, arr_toks, arr, name):
+        return {"toks": [[spelling, "o"]] + arr_toks + [[name, "o"]], "pre": ["i", "i", "d1", "i"], "extra": 0,
+                "act": {"k": "field", "ty": {"sc": ["ref", "ns.Near", 1, 0], "arr": arr}, "name": name}}
+    out.append([L(ref("ns.Near.1.0", [["[", "o"], ["<=", "o"], ["4", "o"], ["]", "m"]], ["incl", 4], "items")),
+                L(ref("ns.Near.1.0", [["[", "o"], ["2", "o"], ["]", "m"]], ["fix", 2], "pair")),
+                L(ref("ns.Near.1.0", [["[", "o"], ["<", "o"], ["4", "o"], ["]", "m"]], ["excl", 4], "few")),
+                L({"toks": [["ns.Near.1.0", "m"], ["single", "o"]], "pre": ["i", "i", "d1", "i"], "extra": 0,
+                   "act": {"k": "field", "ty": {"sc": ["ref", "ns.Near", 1, 0], "arr": None}, "name": "single"}}),
+                L(sealed)])
     return [{"lines": ls, "seed": 7 + i} for i, ls in enumerate(out)]
 
 
@@ -681,6 +708,38 @@ def write_ns(root, files):
             f.write(text.encode("utf-8"))
 
 
+def describe_deep(t, root):
+    return [str(t), type(t).__name__, t.doc, [[str(f), f.doc] for f in t.fields], [[str(c), c.doc] for c in t.constants],
+            os.path.relpath(str(t.source_file_path), root)]
+
+
+def deep_check(types, root, ed):
+    """implementation alone: every composite nested in a field (directly or as array element) of every returned type is the
+    composite that THIS read produced for that name and version - same fields, constants, docs and source file - and the
+    dependencies mirror the edition that is on disk now"""
+    import pydsdl
+    direct = {(t.full_name, t.version.major, t.version.minor): t for t in types}
+    for t in types:
+        for sec in ([t.request_type, t.response_type] if isinstance(t, pydsdl.ServiceType) else [t]):
+            for f in sec.fields:
+                ty = f.data_type
+                where = "element type of the array field" if isinstance(ty, pydsdl.ArrayType) else "type of the field"
+                el = ty.element_type if isinstance(ty, pydsdl.ArrayType) else ty
+                if not isinstance(el, pydsdl.CompositeType):
+                    continue
+                d = direct.get((el.full_name, el.version.major, el.version.minor))
+                if d is not None and describe_deep(el, root) != describe_deep(d, root):
+                    return "the %s %r of %s is %r, but the definition read in this call is %r" % (
+                        where, str(f), sec.full_name, describe_deep(el, root), describe_deep(d, root))
+    for rel, text in deps(ed).items():
+        name = rel[:-len(".dsdl")].replace("/", ".")
+        d = [t for t in types if "%s.%d.%d" % (t.full_name, t.version.major, t.version.minor) == name]
+        want = text.split("\n")[0][2:]
+        if not d or d[0].doc != want:
+            return "the dependency %s does not mirror its source: doc %r, expected %r" % (name, d[0].doc if d else None, want)
+    return None
+
+
 def run_impl(cases):
     import shutil
     import pydsdl
@@ -691,16 +750,31 @@ def run_impl(cases):
         root = os.path.join(scratch, "c03_%d_%d" % (os.getpid(), ci))
         try:
             vs = variants(case)
-            files = dict(DEPS)
+            prev_ed, ed = editions(case)
+            # history: the same definition is first read in another directory against another edition of the dependencies
+            # (same names, versions, kinds and sizes; other field names, constant values, comments)
+            if any(ln["s"] is not None and ln["s"]["act"].get("ty") and ln["s"]["act"]["ty"]["sc"][0] == "ref" for ln in case["lines"]):
+                prev_root = root + "_prev"
+                try:
+                    files = deps(prev_ed)
+                    files["ns/V00.1.0.dsdl"] = vs[0][0]
+                    write_ns(prev_root, files)
+                    pydsdl.read_namespace(os.path.join(prev_root, NS), [])
+                finally:
+                    shutil.rmtree(prev_root, ignore_errors=True)
+            files = deps(ed)
             for k, (text, _) in enumerate(vs):
                 files["ns/V%02d.1.0.dsdl" % k] = text
             write_ns(root, files)
             nsdir = os.path.join(root, NS)
             res = {}
+            deep = None
             try:
-                for t in pydsdl.read_namespace(nsdir, []):
+                types = pydsdl.read_namespace(nsdir, [])
+                for t in types:
                     if t.short_name.startswith("V") and len(t.short_name) == 3:
                         res[int(t.short_name[1:])] = observe(t)
+                deep = deep_check(types, root, ed)
             except Exception:  # pylint: disable=broad-except
                 res = {}
                 for k in range(len(vs)):
@@ -724,6 +798,8 @@ def run_impl(cases):
                 if (o != base) if docs else (strip_docs(o) != strip_docs(base)):
                     fail = "variant %d (%s) yields a different model; text=%r canonical=%r" % (k, "same docs expected" if docs else "modulo docs", text, vs[0][0])
                     break
+            if fail is None and deep is not None:
+                fail = deep
             # the grammar's own \r?\n rule (files are read with universal newlines, so it is reached only through the parser API):
             # the event stream of the parser, line numbers included, must not depend on the line terminator
             if fail is None:
@@ -740,7 +816,7 @@ def run_impl(cases):
             # render the returned model back and read it again
             if fail is None:
                 shutil.rmtree(root, ignore_errors=True)
-                files = dict(DEPS)
+                files = deps(ed)
                 direct0 = None
                 files["ns/V00.1.0.dsdl"] = vs[0][0]
                 write_ns(root, files)
